@@ -113,10 +113,19 @@ func runECIES(c *vf.Check, g *groups.G, part, parts int) {
 			}
 			n, pat := n, pat
 			id := fmt.Sprintf("ecies %s len=%d pat=%d", g.Name, n, pat)
+			// kyber draws the encryption randomness from crypto/rand: the ciphertext is produced once per case, so that
+			// a re-run of the case judges the same ciphertext
+			var mct, mbuf []byte
+			var merr error
+			have := false
 			c.Case(id, pk, func(x *vf.Ctx) {
 				msg := plaintext(n, pat)
-				buf := slack(msg)
-				ct, err := ecies.Encrypt(g.Group, pub, buf[:n], sha256.New)
+				if !have {
+					mbuf = slack(msg)
+					mct, merr = ecies.Encrypt(g.Group, pub, mbuf[:n], sha256.New)
+					have = true
+				}
+				buf, ct, err := mbuf, mct, merr
 				if err != nil {
 					x.Failf(pk+"/encrypt", "%s: Encrypt refused: %v", id, err)
 					return
@@ -140,11 +149,23 @@ func runECIES(c *vf.Check, g *groups.G, part, parts int) {
 				if c.Thorough() && n <= 80 {
 					step = 1
 				}
+				var bits []int
 				for bit := 0; bit < len(ct)*8; bit += step {
 					b := bit
 					if step > 1 {
 						b += (bit / 8) % 8
 					}
+					bits = append(bits, b)
+				}
+				if step > 1 {
+					// format / sign / boundary bytes: every bit
+					for _, by := range []int{0, pl - 1, pl, len(ct) - 1} {
+						for k := 0; k < 8 && by >= 0 && by < len(ct); k++ {
+							bits = append(bits, by*8+k)
+						}
+					}
+				}
+				for _, b := range bits {
 					mut := append([]byte{}, ct...)
 					mut[b/8] ^= 1 << (b % 8)
 					guard(x, pk+"/panic", id+" bitflip", func() {
@@ -193,6 +214,10 @@ func runIBE(c *vf.Check, ps groups.PS, mode string) {
 			}
 			idi, ID, n := idi, ID, n
 			id := fmt.Sprintf("ibe %s %s id#%d len=%d", ps.Name, mode, idi, n)
+			var mcca *ibe.Ciphertext
+			var mcpa *ibe.CiphertextCPA
+			var merr error
+			have := false
 			c.Case(id, pk, func(x *vf.Ctx) {
 				msg := plaintext(n, 0)
 				other := ids[(idi+1)%len(ids)]
@@ -216,7 +241,13 @@ func runIBE(c *vf.Check, ps groups.PS, mode string) {
 					}
 					var ct *ibe.Ciphertext
 					var err error
-					guard(x, pk+"/panic", id+" encrypt", func() { ct, err = enc() })
+					guard(x, pk+"/panic", id+" encrypt", func() {
+						if !have {
+							mcca, merr = enc()
+							have = true
+						}
+						ct, err = mcca, merr
+					})
 					c.Eval(1)
 					if x.Failed() {
 						return
@@ -311,7 +342,13 @@ func runIBE(c *vf.Check, ps groups.PS, mode string) {
 					privK := g2.Point().Mul(msk, g2.Point().(hp).Hash(ID))
 					var ct *ibe.CiphertextCPA
 					var err error
-					guard(x, pk+"/panic", id+" encrypt", func() { ct, err = ibe.EncryptCPAonG1(s, base, public, ID, append([]byte{}, msg...)) })
+					guard(x, pk+"/panic", id+" encrypt", func() {
+						if !have {
+							mcpa, merr = ibe.EncryptCPAonG1(s, base, public, ID, append([]byte{}, msg...))
+							have = true
+						}
+						ct, err = mcpa, merr
+					})
 					c.Eval(1)
 					if x.Failed() {
 						return
@@ -388,10 +425,17 @@ func runAnon(c *vf.Check, sname string, n int) {
 	for _, ml := range lens {
 		ml := ml
 		id := fmt.Sprintf("anon %s set=%d len=%d", sname, n, ml)
+		var mct, mbuf []byte
+		var merr error
+		have := false
 		c.Case(id, pk, func(x *vf.Ctx) {
 			msg := plaintext(ml, 0)
-			buf := slack(msg)
-			ct, err := anon.Encrypt(s, buf[:ml], set)
+			if !have {
+				mbuf = slack(msg)
+				mct, merr = anon.Encrypt(s, mbuf[:ml], set)
+				have = true
+			}
+			buf, ct, err := mbuf, mct, merr
 			if err != nil {
 				x.Failf(pk+"/encrypt", "%s: Encrypt refused: %v", id, err)
 				return
@@ -421,13 +465,35 @@ func runAnon(c *vf.Check, sname string, n int) {
 				}
 			}
 			mine := n - 1
-			limit := len(ct)
-			for i := 0; i < limit; i++ {
+			type flip struct{ i, k, j int } // j >= 0: the same bit of byte j is flipped as well
+			var flips []flip
+			for i := 0; i < len(ct); i++ {
 				if ml > 300 && i > hdr+40 && i < len(ct)-40 && i%101 != 0 {
 					continue
 				}
+				flips = append(flips, flip{i, i % 8, -1})
+			}
+			// format / sign / boundary bytes: every bit; and two bits of the tag at once
+			for _, by := range []int{0, s.PointLen() - 1, s.PointLen(), hdr - 1, hdr, len(ct) - 16, len(ct) - 1} {
+				for k := 0; k < 8 && by >= 0 && by < len(ct); k++ {
+					flips = append(flips, flip{by, k, -1})
+				}
+			}
+			if len(ct) >= hdr+16 {
+				// the same bit in two bytes of the tag / of the body (differences that cancel under XOR or addition)
+				for _, pr := range [][2]int{{len(ct) - 16, len(ct) - 15}, {len(ct) - 2, len(ct) - 1}, {len(ct) - 16, len(ct) - 1}, {hdr, len(ct) - 1}} {
+					if pr[0] >= 0 && pr[0] != pr[1] && pr[0] < len(ct) {
+						flips = append(flips, flip{pr[0], 0, pr[1]}, flip{pr[0], 7, pr[1]})
+					}
+				}
+			}
+			for _, fl := range flips {
+				i := fl.i
 				mut := append([]byte{}, ct...)
-				mut[i] ^= 1 << (i % 8)
+				mut[i] ^= 1 << fl.k
+				if fl.j >= 0 {
+					mut[fl.j] ^= 1 << fl.k
+				}
 				guard(x, pk+"/panic", id+" bitflip", func() {
 					c.Eval(1)
 					if out, err := anon.Decrypt(s, mut, set, mine, privs[mine]); err == nil {
